@@ -21,7 +21,9 @@
    time.monotonic() is an explicit input: every synchronous call (one [op]) carries the list of
    values successive monotonic() calls return inside it ([] = the clock stands still at [now]).
    A packet is (type, payload length, tag); payload bytes are irrelevant to the transport.
-   Not modelled: compression (p_len is the length of what is framed), the receive path (C01/C06),
+   Compression: which context a payload goes through is modelled (a new one at every NEWKEYS), the
+   compressed sizes are not (p_len is the payload length; byte accounting is exact without compression).
+   Not modelled: the receive path (C01/C06),
    negotiation failures, the 2^32 sequence rollover error before the first exchange completes, the
    `wait='kex'` early return of send_newkeys.  No proofs here. *)
 From AV Require Import Base.Prelude Model.Packet.
@@ -46,11 +48,14 @@ Record keys := mkK { k_iv : bytes; k_enc : bytes; k_mac : bytes }.
    encrypt-then-MAC / AEAD, else 5), max(8, cipher block size), IV / key / MAC key sizes *)
 Record algs := mkA { a_hdr_cs : Z; a_bs_cs : Z; a_hdr_sc : Z; a_bs_sc : Z;
                      a_iv_cs : Z; a_enc_cs : Z; a_mac_cs : Z;
-                     a_iv_sc : Z; a_enc_sc : Z; a_mac_sc : Z }.
+                     a_iv_sc : Z; a_enc_sc : Z; a_mac_sc : Z;
+                     a_cmp_cs : Z; a_cmp_sc : Z }.     (* compression: 0 none, 1 zlib, 2 zlib@openssh.com (after auth) *)
 
 (* one packet written to the transport: sequence number, key epoch (number of own NEWKEYS sent
-   before it) and the keys it was protected with, packet_length *)
-Record wrec := mkW { w_pkt : pkt; w_seq : Z; w_epoch : Z; w_keys : option keys; w_len : Z }.
+   before it) and the keys it was protected with, packet_length, and - when the payload went through
+   the compressor - the payloads that compression context had been fed before this one *)
+Record wrec := mkW { w_pkt : pkt; w_seq : Z; w_epoch : Z; w_keys : option keys; w_len : Z;
+                     w_cmp : option (list pkt) }.
 
 (* [legacy] is a switch of the MODEL, not of asyncssh: false = the code as it is; true = the code before
    fix 97cb05d (finding C11-1), where the rekey trigger was also evaluated for MSG_IGNORE. *)
@@ -66,27 +71,31 @@ Definition SVCREQ_pkt : pkt := mkP MSG_SERVICE_REQUEST 17 (-1).    (* Byte(5) + 
 
 (* ---- the part of the connection state send_packet reads but never writes ------------------- *)
 Record env := mkE { e_auth_complete : bool; e_auth_in_progress : bool; e_strict : bool;
-                    e_keys : option keys; e_hdr : Z; e_bs : Z; e_epoch : Z }.
+                    e_keys : option keys; e_hdr : Z; e_bs : Z; e_epoch : Z;
+                    e_cmp : Z }.                  (* kind of self._compressor: 0 = None *)
 
 (* ---- the part send_packet / _send_kexinit / _send_deferred_packets update ------------------- *)
 Record sndst := mkS { kexinit_sent : bool; kex_complete : bool; deferred : list pkt;
                     send_seq : Z; rekey_sent : Z; rekey_time : Z;
-                    now : Z; future : list Z; wire : list wrec }.
+                    now : Z; future : list Z; wire : list wrec;
+                    cmp_seen : list pkt }.        (* ghost: what the current self._compressor has been fed *)
 
 Definition set_kexinit_sent v (s : sndst) :=
-  mkS v (kex_complete s) (deferred s) (send_seq s) (rekey_sent s) (rekey_time s) (now s) (future s) (wire s).
+  mkS v (kex_complete s) (deferred s) (send_seq s) (rekey_sent s) (rekey_time s) (now s) (future s) (wire s) (cmp_seen s).
 Definition set_kex_complete v (s : sndst) :=
-  mkS (kexinit_sent s) v (deferred s) (send_seq s) (rekey_sent s) (rekey_time s) (now s) (future s) (wire s).
+  mkS (kexinit_sent s) v (deferred s) (send_seq s) (rekey_sent s) (rekey_time s) (now s) (future s) (wire s) (cmp_seen s).
 Definition set_deferred v (s : sndst) :=
-  mkS (kexinit_sent s) (kex_complete s) v (send_seq s) (rekey_sent s) (rekey_time s) (now s) (future s) (wire s).
+  mkS (kexinit_sent s) (kex_complete s) v (send_seq s) (rekey_sent s) (rekey_time s) (now s) (future s) (wire s) (cmp_seen s).
 Definition set_rekey_sent v (s : sndst) :=
-  mkS (kexinit_sent s) (kex_complete s) (deferred s) (send_seq s) v (rekey_time s) (now s) (future s) (wire s).
+  mkS (kexinit_sent s) (kex_complete s) (deferred s) (send_seq s) v (rekey_time s) (now s) (future s) (wire s) (cmp_seen s).
 Definition set_rekey_time v (s : sndst) :=
-  mkS (kexinit_sent s) (kex_complete s) (deferred s) (send_seq s) (rekey_sent s) v (now s) (future s) (wire s).
+  mkS (kexinit_sent s) (kex_complete s) (deferred s) (send_seq s) (rekey_sent s) v (now s) (future s) (wire s) (cmp_seen s).
 Definition set_now v (s : sndst) :=
-  mkS (kexinit_sent s) (kex_complete s) (deferred s) (send_seq s) (rekey_sent s) (rekey_time s) v (future s) (wire s).
+  mkS (kexinit_sent s) (kex_complete s) (deferred s) (send_seq s) (rekey_sent s) (rekey_time s) v (future s) (wire s) (cmp_seen s).
+Definition set_cmp_seen v (s : sndst) :=
+  mkS (kexinit_sent s) (kex_complete s) (deferred s) (send_seq s) (rekey_sent s) (rekey_time s) (now s) (future s) (wire s) v.
 Definition set_future v (s : sndst) :=
-  mkS (kexinit_sent s) (kex_complete s) (deferred s) (send_seq s) (rekey_sent s) (rekey_time s) (now s) v (wire s).
+  mkS (kexinit_sent s) (kex_complete s) (deferred s) (send_seq s) (rekey_sent s) (rekey_time s) (now s) v (wire s) (cmp_seen s).
 
 (* one call of time.monotonic() *)
 Definition read_clock (s : sndst) : Z * sndst :=
@@ -108,13 +117,19 @@ Definition trigger (c : cfg) (e : env) (ty : Z) (s : sndst) : bool * sndst :=
   else (false, s).
 
 (* lines "orig_payload = ..." to the end of send_packet: frame, write, sequence number, byte count *)
+(* if self._compressor and (self._auth_complete or not self._compress_after_auth) *)
+Definition compressing (e : env) : bool :=
+  negb (e_cmp e =? 0) && (e_auth_complete e || negb (e_cmp e =? 2)).
+
 Definition emit (e : env) (p : pkt) (s : sndst) : sndst :=
-  let pktlen := 1 + p_len p + pad_len (e_hdr e) (e_bs e) (p_len p) in
+  let pktlen := 1 + p_len p + pad_len (e_hdr e) (e_bs e) (p_len p) in      (* exact without compression *)
   mkS (kexinit_sent s) (kex_complete s) (deferred s)
       (if (p_ty p =? MSG_NEWKEYS) && e_strict e then 0 else (send_seq s + 1) mod SEQ_MOD)
       (if kex_complete s then rekey_sent s + pktlen else rekey_sent s)
       (rekey_time s) (now s) (future s)
-      (wire s ++ [mkW p (send_seq s) (e_epoch e) (e_keys e) pktlen]).
+      (wire s ++ [mkW p (send_seq s) (e_epoch e) (e_keys e) pktlen
+                      (if compressing e then Some (cmp_seen s) else None)])
+      (if compressing e then cmp_seen s ++ [p] else cmp_seen s).
 
 (* _send_kexinit.  Its final self.send_packet(MSG_KEXINIT, ...) runs with kex_complete = False, so
    the trigger is off; 20 is not deferrable and 20 <= MSG_KEX_LAST gets no IGNORE: it is [emit]. *)
@@ -171,6 +186,7 @@ Record st := mkSt {
   strict : bool;                  (* _strict_kex *)
   sid : bytes;                    (* _session_id, b'' = not set *)
   send_keys : option keys; send_hdr : Z; send_bs : Z; send_epoch : Z;
+  send_cmp : Z;                   (* kind of self._compressor *)
   staged : option keys;           (* _next_recv_encryption *)
   recv_keys : option keys; recv_epoch : Z;
   hist : list (bytes * bytes * algs);   (* ghost: (K, H, algorithms) of every exchange completed *)
@@ -179,49 +195,50 @@ Record st := mkSt {
   sn : sndst }.
 
 Definition env_of (s : st) : env :=
-  mkE (auth_complete s) (auth_in_progress s) (strict s) (send_keys s) (send_hdr s) (send_bs s) (send_epoch s).
+  mkE (auth_complete s) (auth_in_progress s) (strict s) (send_keys s) (send_hdr s) (send_bs s) (send_epoch s) (send_cmp s).
 
 Definition set_sn v (s : st) :=
   mkSt (started s) (kex_active s) (auth_in_progress s) (auth_complete s) (can_ext s) (strict s) (sid s)
-       (send_keys s) (send_hdr s) (send_bs s) (send_epoch s) (staged s) (recv_keys s) (recv_epoch s)
+       (send_keys s) (send_hdr s) (send_bs s) (send_epoch s) (send_cmp s) (staged s) (recv_keys s) (recv_epoch s)
        (hist s) (asked s) (err s) v.
 Definition set_started v (s : st) :=
   mkSt v (kex_active s) (auth_in_progress s) (auth_complete s) (can_ext s) (strict s) (sid s)
-       (send_keys s) (send_hdr s) (send_bs s) (send_epoch s) (staged s) (recv_keys s) (recv_epoch s)
+       (send_keys s) (send_hdr s) (send_bs s) (send_epoch s) (send_cmp s) (staged s) (recv_keys s) (recv_epoch s)
        (hist s) (asked s) (err s) (sn s).
 Definition set_kex_active v (s : st) :=
   mkSt (started s) v (auth_in_progress s) (auth_complete s) (can_ext s) (strict s) (sid s)
-       (send_keys s) (send_hdr s) (send_bs s) (send_epoch s) (staged s) (recv_keys s) (recv_epoch s)
+       (send_keys s) (send_hdr s) (send_bs s) (send_epoch s) (send_cmp s) (staged s) (recv_keys s) (recv_epoch s)
        (hist s) (asked s) (err s) (sn s).
 Definition set_auth v w (s : st) :=
   mkSt (started s) (kex_active s) v w (can_ext s) (strict s) (sid s)
-       (send_keys s) (send_hdr s) (send_bs s) (send_epoch s) (staged s) (recv_keys s) (recv_epoch s)
+       (send_keys s) (send_hdr s) (send_bs s) (send_epoch s) (send_cmp s) (staged s) (recv_keys s) (recv_epoch s)
        (hist s) (asked s) (err s) (sn s).
 Definition set_markers v w (s : st) :=
   mkSt (started s) (kex_active s) (auth_in_progress s) (auth_complete s) v w (sid s)
-       (send_keys s) (send_hdr s) (send_bs s) (send_epoch s) (staged s) (recv_keys s) (recv_epoch s)
+       (send_keys s) (send_hdr s) (send_bs s) (send_epoch s) (send_cmp s) (staged s) (recv_keys s) (recv_epoch s)
        (hist s) (asked s) (err s) (sn s).
 Definition set_sid v (s : st) :=
   mkSt (started s) (kex_active s) (auth_in_progress s) (auth_complete s) (can_ext s) (strict s) v
-       (send_keys s) (send_hdr s) (send_bs s) (send_epoch s) (staged s) (recv_keys s) (recv_epoch s)
+       (send_keys s) (send_hdr s) (send_bs s) (send_epoch s) (send_cmp s) (staged s) (recv_keys s) (recv_epoch s)
        (hist s) (asked s) (err s) (sn s).
 Definition set_asked v (s : st) :=
   mkSt (started s) (kex_active s) (auth_in_progress s) (auth_complete s) (can_ext s) (strict s) (sid s)
-       (send_keys s) (send_hdr s) (send_bs s) (send_epoch s) (staged s) (recv_keys s) (recv_epoch s)
+       (send_keys s) (send_hdr s) (send_bs s) (send_epoch s) (send_cmp s) (staged s) (recv_keys s) (recv_epoch s)
        (hist s) v (err s) (sn s).
 Definition set_err v (s : st) :=
   mkSt (started s) (kex_active s) (auth_in_progress s) (auth_complete s) (can_ext s) (strict s) (sid s)
-       (send_keys s) (send_hdr s) (send_bs s) (send_epoch s) (staged s) (recv_keys s) (recv_epoch s)
+       (send_keys s) (send_hdr s) (send_bs s) (send_epoch s) (send_cmp s) (staged s) (recv_keys s) (recv_epoch s)
        (hist s) (asked s) v (sn s).
-(* send_newkeys after NEWKEYS went out: new send keys and framing parameters, receive keys staged *)
-Definition install_send (ks : keys) (hdr bs : Z) (nx : keys) (entry : bytes * bytes * algs) (s : st) :=
+(* send_newkeys after NEWKEYS went out: new send keys and framing parameters, the kind of the new
+   compressor, receive keys staged *)
+Definition install_send (ks : keys) (hdr bs cmp : Z) (nx : keys) (entry : bytes * bytes * algs) (s : st) :=
   mkSt (started s) (kex_active s) (auth_in_progress s) (auth_complete s) (can_ext s) (strict s) (sid s)
-       (Some ks) hdr bs (send_epoch s + 1) (Some nx) (recv_keys s) (recv_epoch s)
+       (Some ks) hdr bs (send_epoch s + 1) cmp (Some nx) (recv_keys s) (recv_epoch s)
        (hist s ++ [entry]) (asked s) (err s) (sn s).
 (* _process_newkeys: staged keys become the receive keys and are consumed *)
 Definition install_recv (ks : keys) (s : st) :=
   mkSt (started s) (kex_active s) (auth_in_progress s) (auth_complete s) (can_ext s) (strict s) (sid s)
-       (send_keys s) (send_hdr s) (send_bs s) (send_epoch s) None (Some ks) (recv_epoch s + 1)
+       (send_keys s) (send_hdr s) (send_bs s) (send_epoch s) (send_cmp s) None (Some ks) (recv_epoch s + 1)
        (hist s) (asked s) (err s) (sn s).
 
 Definition is_nil {A} (l : list A) : bool := match l with [] => true | _ => false end.
@@ -267,7 +284,9 @@ Section Rekey.
       let s1 := do_send NEWKEYS_pkt (set_sid sid' (set_kex_active false s)) in
       let s2 := install_send (mk_keys cs k h sid' a)
                              (if cs then a_hdr_cs a else a_hdr_sc a) (if cs then a_bs_cs a else a_bs_sc a)
-                             (mk_keys (negb cs) k h sid' a) (k, h, a) s1 in
+                             (if cs then a_cmp_cs a else a_cmp_sc a)
+                             (mk_keys (negb cs) k h sid' a) (k, h, a)
+                             (set_sn (set_cmp_seen [] (sn s1)) s1) in     (* get_compressor(): a NEW context, nothing fed to it yet *)
       let s3 := if can_ext s2 then set_markers false (strict s2) (do_send (EXTINFO_pkt c) s2) else s2 in
       let s4 := set_sn (set_kex_complete true (sn s3)) s3 in
       let s5 := if first && cs then do_send SVCREQ_pkt s4 else s4 in
@@ -324,10 +343,10 @@ Section Rekey.
 
   Definition run (ops : list op) (s : st) : st := fold_left step ops s.
 
-  Definition init_snd : sndst := mkS false false [] 0 0 0 0 [] [].
+  Definition init_snd : sndst := mkS false false [] 0 0 0 0 [] [] [].
   (* connection_made: _send_enchdrlen = 5, _send_blocksize = 8, nothing negotiated *)
   Definition init : st :=
-    mkSt false false false false false false [] None 5 8 0 None None 0 [] [] None init_snd.
+    mkSt false false false false false false [] None 5 8 0 0 None None 0 [] [] None init_snd.
 End Rekey.
 
 (* ---- specification vocabulary ---------------------------------------------------------------- *)
@@ -370,6 +389,17 @@ Definition epoch_step (acc : option Z) (w : wrec) : option Z :=
   | Some n => if w_epoch w =? n then Some (if p_ty (w_pkt w) =? MSG_NEWKEYS then n + 1 else n) else None
   end.
 Definition epoch_scan (l : list wrec) : option Z := fold_left epoch_step l (Some 0).
+
+(* compression contexts: the payloads of epoch [ep] in [l] that went through the compressor ... *)
+Definition cmp_fed (ep : Z) (l : list wrec) : list pkt :=
+  map w_pkt (filter (fun x => (w_epoch x =? ep) && is_some (w_cmp x)) l).
+(* ... and: every compressed record of [l] (written after [pre]) used a context that had been fed exactly
+   the compressed payloads of ITS OWN epoch that precede it *)
+Fixpoint cmp_ok (pre l : list wrec) : Prop :=
+  match l with
+  | [] => True
+  | w :: r => (forall ctx, w_cmp w = Some ctx -> ctx = cmp_fed (w_epoch w) pre) /\ cmp_ok (pre ++ [w]) r
+  end.
 
 (* the send keys of epoch n according to the history of completed exchanges *)
 Definition keys_at (Hf : bytes -> bytes) (cs : bool) (sidv : bytes) (h : list (bytes * bytes * algs)) (n : Z)
